@@ -59,7 +59,7 @@ def plan(tier, seed):
     specs.append({"name": "large1", "kind": "large", "shard": 1, "cases": 3000 if tier == "quick" else 40000, "timeout": 3000})
     specs.append({"name": "count", "kind": "count", "timeout": 3000})
     for i in range(4):
-        specs.append({"name": "high%d" % i, "kind": "high", "shard": i, "cases": 1500 if tier == "quick" else 15000, "timeout": 3000})
+        specs.append({"name": "high%d" % i, "kind": "high", "shard": i, "cases": 4000 if tier == "quick" else 30000, "timeout": 3000})
     if tier == "thorough":
         specs.append({"name": "gridbc", "kind": "grid", "cells": [c for c in cells if c[2] <= 3000], "timeout": 3000,
                       "mode": {"boundscheck": True}})
@@ -69,7 +69,7 @@ def plan(tier, seed):
 def required(tier):
     return {"index_checked": 20000, "inverse_checked": 20000, "walk_steps": 20000, "coef_checked": 3000,
             "coef_beyond_table": 500, "large_roundtrips": 2000, "count_unique_checked": 1000, "spaces_exhausted": 60,
-            "high_ploidy_spaces_exhausted": 40, "high_ploidy_coef_checked": 3000, "high_ploidy_roundtrips": 3000}
+            "high_ploidy_spaces_exhausted": 40, "high_ploidy_coef_checked": 3000, "high_ploidy_roundtrips": 8000}
 
 
 def coverage_extra(tier, col):
@@ -313,7 +313,9 @@ def big_space_high(rng):
         na_max = 2
         while math.comb(na_max + ploidy, ploidy) < 2**53:
             na_max += 1
-        na = int(rng.integers(2, na_max + 1))
+        # half of the spaces sit at the edge of the 2^53 domain (largest allele numbers the ploidy admits), where probes of the
+        # decoder that overshoot the true allele leave the int64 range first
+        na = int(rng.integers(max(2, na_max - 8), na_max + 1)) if rng.random() < 0.5 else int(rng.integers(2, na_max + 1))
         n = math.comb(na + ploidy - 1, ploidy)
         if n < 2**53:
             return na, ploidy, n
